@@ -2,6 +2,9 @@ package main
 
 import (
 	"fmt"
+	"math/big"
+
+	"verifharness/oracle"
 
 	"verifharness/hx"
 )
@@ -29,13 +32,49 @@ func genC01(r *hx.RNG, l hx.Limits) *opCase {
 	}
 }
 
+// extremeGap builds an Add/Sub whose operands' leading digits lie 2^31 or more decimal places apart (the library
+// materialises the gap: about 0.9 GB and a few seconds, hence one case per quick run). The exact sum cannot be written
+// down; since the small operand lies far below both the last digit of the large one and the rounding position, the
+// result is the same as for any non-zero value of its sign down there: the models judge that surrogate.
+func extremeGap(r *hx.RNG, magnitudesAdd bool) (real, surrogate *opCase) {
+	k := &opCase{op: "Add", mode: r.Mode(), class: "extreme-gap"}
+	if r.Bool() {
+		k.op = "Sub"
+	}
+	k.p = int64(r.Range(1, 60))
+	gap := int64(1)<<31 + int64(r.Intn(3)*r.Range(0, 3000000))
+	xle := gap/2 + int64(r.Range(0, 1000))
+	x := r.Finite(r.Range(1, 40), xle)
+	y := r.Finite(r.Range(1, 20), xle-gap)
+	if sameSign := magnitudesAdd != (k.op == "Sub"); sameSign { // the magnitudes add (uadd) or subtract (usub), as asked
+		y.Neg = x.Neg
+	} else {
+		y.Neg = !x.Neg
+	}
+	tiny := oracle.Val{Form: oracle.Finite, Neg: y.Neg, Coef: big.NewInt(1), Exp: x.Exp - k.p - 5}
+	s := *k
+	if r.Bool() {
+		k.x, k.y = x, y
+		s.x, s.y = x, tiny
+	} else {
+		k.x, k.y = y, x
+		s.x, s.y = tiny, x
+	}
+	k.xm, k.ym = r.Mode(), r.Mode()
+	return k, &s
+}
+
 func c01Case(c *hx.Ctx, r *hx.RNG, idx int64) {
 	l := hx.LimitsFor(c.Tier)
 	k := genC01(r, l)
+	judged := k
+	if m := idx % 2000000; m == 5 || m == 21 { // (both in the same shard: one after the other)
+		k, judged = extremeGap(r, m == 5)
+	}
 	if c.Verbose {
 		fmt.Println("case:", k.desc(true))
 	}
-	if k.costly(l) {
+	if k.class != "extreme-gap" && k.costly(l) {
 		c.Skip()
 		return
 	}
@@ -49,7 +88,7 @@ func c01Case(c *hx.Ctx, r *hx.RNG, idx int64) {
 		c.Violate("panic", fmt.Sprintf("%s: %s panic %q at %s", k.desc(true), pi.Class, pi.Text, pi.Stack), "")
 		return
 	}
-	v := k.judge(got)
+	v := judged.judge(got)
 	c.Eval(k.key(), !v.trivial, cls)
 	if c.Verbose {
 		fmt.Printf("  stored  : %s\n  model #1: %s acc=%d\n  model #2: value=%q acc=%q\n", got, v.exp.V.Full(), v.exp.Acc, v.m2Value, v.m2Acc)
